@@ -82,6 +82,9 @@ op_assign_scale = st.fixed_dictionaries({
     "op": st.just("assign_scale"),
     "desc": S.array_desc(kinds=["normal", "ints", "ties", "zeros", "uniform"],
                          scales=[1e-3, 1.0, 1.0, 10.0, 1e3])})
+op_train_step = st.fixed_dictionaries({
+    "op": st.just("train_step"), "lr": st.sampled_from([0.01, 1.0, 30.0]),
+    "sign": st.sampled_from([-1.0, 1.0]), "seed": st.integers(0, 10**6)})
 op_assign_bias = st.fixed_dictionaries({
     "op": st.just("assign_bias"),
     "desc": S.array_desc(kinds=["normal", "ints"], scales=[1.0, 100.0])})
@@ -154,9 +157,30 @@ def apply_op(state, op, out):
     layer.scale.assign(s)
     state.dirty_kernel = state.dirty_scale = True
   elif name == "assign_bias":
-    if cfg["omin"] is None and cfg["omax"] is None:
+    # any TRAINABLE variable may take any value during training; the bias of a
+    # bounded layer is documented as fixed (non-trainable) and is left alone.
+    if any(v is layer.bias for v in layer.trainable_variables):
       b = S.materialize(op["desc"], (cfg["units"], 1))[:, 0]
       layer.bias.assign(b)
+  elif name == "train_step":
+    # a real optimizer step: Keras updates every trainable variable and then
+    # re-applies each variable's constraint.
+    import tf_keras as keras
+    rs = np.random.RandomState(op["seed"])
+    x = rs.uniform(-0.5, cfg["size"] - 0.5, size=(8, cfg["dims"])).astype(
+        np.float32)
+    if cfg["units"] > 1:
+      x = np.repeat(x[:, None, :], cfg["units"], axis=1)
+    opt = keras.optimizers.SGD(learning_rate=op["lr"])
+    with tf.GradientTape() as tape:
+      y = layer(tf.constant(x))
+      loss = op["sign"] * tf.reduce_mean(y) + 0.1 * tf.reduce_mean(
+          (y - op["sign"] * -50.0) ** 2) * 0.0
+    tv = layer.trainable_variables
+    grads = tape.gradient(loss, tv)
+    opt.apply_gradients([(g, v) for g, v in zip(grads, tv) if g is not None])
+    state.dirty_kernel = state.dirty_scale = False
+    state.violated_before = True
   elif name == "apply_kernel_constraint":
     if layer.kernel.constraint is not None:
       layer.kernel.assign(layer.kernel.constraint(layer.kernel))
@@ -174,6 +198,14 @@ def apply_op(state, op, out):
   else:
     raise ValueError(name)
   out.label("op:" + name)
+  if name == "train_step" and not all(
+      np.all(np.isfinite(v.numpy())) and np.max(np.abs(v.numpy())) <= 1e6
+      for v in layer.variables):
+    # weights beyond 1e6 (or non-finite): products over dims overflow float32;
+    # the statement is about finite arithmetic, so the state is not judged.
+    state.dirty_kernel = state.dirty_scale = True
+    out.label("not-judged:weights-beyond-1e6")
+    return
   if name.startswith("assign"):
     mv, bv, sc, _ = state.grid_measures()
     if mv > 1e-3 * sc or bv > 1e-3 * sc:
@@ -305,6 +337,10 @@ def machine(tier, sink):
 
     @rule(op=op_assign_bias)
     def assign_bias(self, op):
+      self.ops.append(op)
+
+    @rule(op=op_train_step)
+    def train_step(self, op):
       self.ops.append(op)
 
     @rule()
